@@ -107,19 +107,25 @@ class Explorer {
     if (trace.size() < prefix.size()) { fprintf(stderr, "explorer: run ended inside the replayed prefix (%zu < %zu)\n", trace.size(), prefix.size()); abort(); }
   }
 
-  void explore(const std::function<void(Explorer&)>& body) {
+  // slice/nslices: the first-level alternatives (single deviations from the default run) are dealt
+  // round-robin to nslices independent explorations; slice 0 also owns the default run itself.
+  void explore(const std::function<void(Explorer&)>& body, int slice = 0, int nslices = 1) {
     std::vector<std::vector<uint16_t>> stack;
     stack.push_back({});
+    bool first = true;
     while (!stack.empty() && !stopAll) {
       std::vector<uint16_t> pfx = std::move(stack.back());
       stack.pop_back();
       runOnce(pfx, body);
+      if (first && slice != 0) executions--;  // the default run is accounted to slice 0
       // push alternatives in reverse so that the earliest/simplest is explored first
+      size_t ordinal = 0;
       for (size_t i = trace.size(); i-- > pfx.size();) {
         const ChoicePoint& cp = trace[i];
         for (int a = cp.n - 1; a >= 1; a--) {
           int k = cp.kinds[a];
           if (k == 0 || cp.left[k] <= 0) continue;
+          if (first && nslices > 1 && (int)(ordinal++ % nslices) != slice) continue;
           std::vector<uint16_t> np;
           np.reserve(i + 1);
           for (size_t j = 0; j < i; j++) np.push_back(trace[j].chosen);
@@ -127,6 +133,7 @@ class Explorer {
           stack.push_back(std::move(np));
         }
       }
+      first = false;
     }
   }
 };
